@@ -135,6 +135,19 @@ func runC04(c *core.Ctx) *core.Outcome {
 				return finishModel(o, c, r).Fail("failing-move-not-reported", i, map[string]string{"target": strings.TrimPrefix(ob.exp.ErrWhy, "failing-move:")},
 					"request %d input %s from %s: the move %s must fail here, but the request succeeded at %v index %d with output %s", i, short(string(in)), before, ob.exp.ErrWhy, ob.actPath, ob.actIdx, short(ob.st.Out))
 			}
+			// what follows a failed request is not in the model; but if the stored session then starts over
+			// with a move to the entry node, that move is in the table like any other: [entry] index 0
+			if persisted && ob.st.ExecErr != "" {
+				nx := r.s.Request([]byte{}, true)
+				o.Counts["requests"]++
+				if nx.Panic == "" && nx.ExecErr == "" && len(nx.Moves) > 0 && nx.Moves[0] == a.Root {
+					if p, idx := r.s.Position(); len(p) == 1 && p[0] == a.Root && idx != 0 {
+						return finishModel(o, c, r).Fail("wrong-page-index", i+1, map[string]string{"move": "restart-after-failed-move"},
+							"request %d (after the failed move of request %d, input %s from %s) starts the session over with a move to %s, position %v index %d: a move to a named node gives page index 0", i+1, i, short(string(in)), before, a.Root, p, idx)
+					}
+					o.Probes["restart_after_failed_move_checked"]++
+				}
+			}
 			break
 		}
 		if ob.exp.ExecErr || ob.st.ExecErr != "" {
